@@ -130,7 +130,8 @@ CollapseFrom(s) ==
   IF s = <<>> THEN <<>>
   ELSE IF IsWS(s[1]) THEN (LET r == DropWS(s) IN IF r = <<>> THEN <<>> ELSE <<32>> \o CollapseFrom(r))
   ELSE <<s[1]>> \o CollapseFrom(Tail(s))
-Collapse(s) == CollapseFrom(DropWS(s))
+HasWS(s) == \E i \in 1..Len(s) : IsWS(s[i])
+Collapse(s) == IF HasWS(s) THEN CollapseFrom(DropWS(s)) ELSE s
 CastTable == {
   <<S_1, "dbl", Db1>>, <<S_1p0, "dbl", Db1>>, <<S_big1, "dbl", DBig0>>,      \* the lexical mapping of xs:double rounds
   <<S_1, "bool", Bool(TRUE)>>, <<S_true, "bool", Bool(TRUE)>>,
